@@ -168,13 +168,13 @@ pub fn check_case(prop: &str, case: &Case, st: &mut Stats) -> Verdict {
 pub fn budget(prop: &str, tier: Tier) -> u64 {
     let (q, t) = match prop {
         "C01" => (30_000, 400_000),
-        "C02" => (4_000, 80_000),
+        "C02" => (4_000, 60_000),
         "C03" => (40_000, 600_000),
         "C04" => (5_000, 100_000),
         "C05" => (5_000, 100_000),
         "C06" => (16_000, 400_000),
-        "C07" => (8_000, 200_000),
-        "C08" => (6_000, 100_000),
+        "C07" => (8_000, 60_000),
+        "C08" => (6_000, 40_000),
         "C09" => (12_000, 200_000),
         "C10" => (5_000, 100_000),
         "C11" => (6_000, 150_000),
@@ -182,7 +182,7 @@ pub fn budget(prop: &str, tier: Tier) -> u64 {
         "C13" => (3_000, 40_000),
         "C15" => (60_000, 600_000),
         "C16" => (12_000, 120_000),
-        "C17" => (12_000, 300_000),
+        "C17" => (12_000, 120_000),
         "C18" => (60_000, 800_000),
         _ => (1000, 10_000),
     };
